@@ -21,6 +21,7 @@ from ..config import Config, Sockets
 from ..typing import AppWrapper, LifespanState
 from ..utils import (
     check_multiprocess_shutdown_event,
+    LifespanFailureError,
     load_application,
     raise_shutdown,
     repr_socket_addr,
@@ -86,6 +87,10 @@ async def worker_serve(
         exception = lifespan_task.exception()
         if exception is not None:
             raise exception
+    elif lifespan.startup_failure is not None:
+        # The app swallowed the error raised into its send call
+        lifespan_task.cancel()
+        raise LifespanFailureError("startup", lifespan.startup_failure)
 
     if sockets is None:
         sockets = config.create_sockets()
